@@ -63,6 +63,7 @@ struct Fibre {
 	int op_sleeps, op_atomics, op_idle_jumps;
 	int total_sleeps;
 	int alloc_failures, no_write_window;
+	int64_t op_last_timed_block_ns;
 };
 
 struct Policy {
